@@ -1,0 +1,317 @@
+//go:build verif
+
+// Read-only observation hooks for the model-checking harness in /verif.
+// Compiled only with the build tag "verif"; with the tag off the package is
+// unchanged.
+
+package raft
+
+import (
+	"encoding/binary"
+	"slices"
+
+	"google.golang.org/protobuf/proto"
+
+	pb "go.etcd.io/raft/v3/raftpb"
+	"go.etcd.io/raft/v3/tracker"
+)
+
+// VerifProgress is a copy of one tracker.Progress.
+type VerifProgress struct {
+	ID               uint64
+	Match, Next      uint64
+	SentCommit       uint64
+	PendingSnapshot  uint64
+	State            tracker.StateType
+	RecentActive     bool
+	MsgAppFlowPaused bool
+	IsLearner        bool
+	Inflights        []tracker.VerifInflight
+}
+
+// VerifRead is one unconfirmed read request of the readOnly queue.
+type VerifRead struct {
+	Index uint64
+	From  uint64
+	Ctx   []byte
+}
+
+// VerifState is a read-only dump of everything a RawNode holds. Slices of
+// entries and messages alias the node's memory and must not be modified.
+type VerifState struct {
+	ID, Term, Vote, Lead      uint64
+	LeadTransferee            uint64
+	PendingConfIndex          uint64
+	State                     StateType
+	IsLearner                 bool
+	UncommittedSize           uint64
+	ElectionElapsed           int
+	HeartbeatElapsed          int
+	RandomizedElectionTimeout int
+
+	Committed, Applying, Applied uint64
+	ApplyingEntsSize             uint64
+	ApplyingEntsPaused           bool
+	FirstIndex, LastIndex        uint64
+
+	UnstableOffset             uint64
+	UnstableOffsetInProgress   uint64
+	UnstableEntries            []*pb.Entry
+	UnstableSnapshot           *pb.Snapshot
+	UnstableSnapshotInProgress bool
+
+	Voters       [2][]uint64
+	Learners     []uint64
+	LearnersNext []uint64
+	AutoLeave    bool
+	Progress     []VerifProgress
+	VotesFor     []uint64
+	VotesAgainst []uint64
+
+	ReadAcks         [][2]uint64
+	ReadUnconfirmed  []VerifRead
+	ReadConfirmed    uint64
+	PendingReadIndex []*pb.Message
+
+	Msgs            []*pb.Message
+	MsgsAfterAppend []*pb.Message
+	StepsOnAdvance  []*pb.Message
+	ReadStates      []ReadState
+	PrevHardSt      *pb.HardState
+	PrevSoftSt      SoftState
+}
+
+func verifSortedSet(m map[uint64]struct{}) []uint64 {
+	if len(m) == 0 {
+		return nil
+	}
+	s := make([]uint64, 0, len(m))
+	for id := range m {
+		s = append(s, id)
+	}
+	slices.Sort(s)
+	return s
+}
+
+// VerifState dumps the node's state.
+func (rn *RawNode) VerifState() VerifState {
+	r := rn.raft
+	l := r.raftLog
+	s := VerifState{
+		ID: r.id, Term: r.Term, Vote: r.Vote, Lead: r.lead,
+		LeadTransferee:            r.leadTransferee,
+		PendingConfIndex:          r.pendingConfIndex,
+		State:                     r.state,
+		IsLearner:                 r.isLearner,
+		UncommittedSize:           uint64(r.uncommittedSize),
+		ElectionElapsed:           r.electionElapsed,
+		HeartbeatElapsed:          r.heartbeatElapsed,
+		RandomizedElectionTimeout: r.randomizedElectionTimeout,
+
+		Committed: l.committed, Applying: l.applying, Applied: l.applied,
+		ApplyingEntsSize:   uint64(l.applyingEntsSize),
+		ApplyingEntsPaused: l.applyingEntsPaused,
+		FirstIndex:         l.firstIndex(),
+		LastIndex:          l.lastIndex(),
+
+		UnstableOffset:             l.unstable.offset,
+		UnstableOffsetInProgress:   l.unstable.offsetInProgress,
+		UnstableEntries:            l.unstable.entries,
+		UnstableSnapshot:           l.unstable.snapshot,
+		UnstableSnapshotInProgress: l.unstable.snapshotInProgress,
+
+		AutoLeave:        r.trk.AutoLeave,
+		ReadConfirmed:    r.readOnly.confirmedReads,
+		PendingReadIndex: r.pendingReadIndexMessages,
+		Msgs:             r.msgs,
+		MsgsAfterAppend:  r.msgsAfterAppend,
+		StepsOnAdvance:   rn.stepsOnAdvance,
+		ReadStates:       r.readStates,
+		PrevHardSt:       rn.prevHardSt,
+		PrevSoftSt:       *rn.prevSoftSt,
+	}
+	s.Voters[0] = verifSortedSet(r.trk.Voters[0])
+	s.Voters[1] = verifSortedSet(r.trk.Voters[1])
+	s.Learners = verifSortedSet(r.trk.Learners)
+	s.LearnersNext = verifSortedSet(r.trk.LearnersNext)
+	ids := make([]uint64, 0, len(r.trk.Progress))
+	for id := range r.trk.Progress {
+		ids = append(ids, id)
+	}
+	slices.Sort(ids)
+	for _, id := range ids {
+		pr := r.trk.Progress[id]
+		s.Progress = append(s.Progress, VerifProgress{
+			ID: id, Match: pr.Match, Next: pr.Next,
+			SentCommit:       pr.VerifSentCommit(),
+			PendingSnapshot:  pr.PendingSnapshot,
+			State:            pr.State,
+			RecentActive:     pr.RecentActive,
+			MsgAppFlowPaused: pr.MsgAppFlowPaused,
+			IsLearner:        pr.IsLearner,
+			Inflights:        pr.Inflights.VerifItems(),
+		})
+	}
+	for id, v := range r.trk.Votes {
+		if v {
+			s.VotesFor = append(s.VotesFor, id)
+		} else {
+			s.VotesAgainst = append(s.VotesAgainst, id)
+		}
+	}
+	slices.Sort(s.VotesFor)
+	slices.Sort(s.VotesAgainst)
+	for id, pos := range r.readOnly.acks {
+		s.ReadAcks = append(s.ReadAcks, [2]uint64{id, pos})
+	}
+	slices.SortFunc(s.ReadAcks, func(a, b [2]uint64) int {
+		if a[0] < b[0] {
+			return -1
+		} else if a[0] > b[0] {
+			return 1
+		}
+		return 0
+	})
+	for _, rq := range r.readOnly.unconfirmedReads {
+		vr := VerifRead{Index: rq.index, From: rq.req.GetFrom()}
+		if len(rq.req.GetEntries()) > 0 {
+			vr.Ctx = rq.req.GetEntries()[0].GetData()
+		}
+		s.ReadUnconfirmed = append(s.ReadUnconfirmed, vr)
+	}
+	return s
+}
+
+var verifMarshal = proto.MarshalOptions{Deterministic: true}
+
+func verifU(b []byte, vs ...uint64) []byte {
+	for _, v := range vs {
+		b = binary.AppendUvarint(b, v)
+	}
+	return b
+}
+
+func verifB(b []byte, v bool) []byte {
+	if v {
+		return append(b, 1)
+	}
+	return append(b, 0)
+}
+
+func verifPB(b []byte, m proto.Message) []byte {
+	mark := len(b)
+	b = append(b, 0, 0, 0, 0)
+	b, err := verifMarshal.MarshalAppend(b, m)
+	if err != nil {
+		panic(err)
+	}
+	binary.LittleEndian.PutUint32(b[mark:], uint32(len(b)-mark-4))
+	return b
+}
+
+func verifMsgs(b []byte, ms []*pb.Message) []byte {
+	b = verifU(b, uint64(len(ms)))
+	for _, m := range ms {
+		b = verifPB(b, m)
+	}
+	return b
+}
+
+func verifIDs(b []byte, ids []uint64) []byte {
+	b = verifU(b, uint64(len(ids)))
+	return verifU(b, ids...)
+}
+
+// VerifFingerprint appends a canonical encoding of the complete node state
+// (everything in VerifState except the randomized election timeout, which the
+// harness pins) to b.
+func (rn *RawNode) VerifFingerprint(b []byte) []byte {
+	s := rn.VerifState()
+	b = verifU(b, s.ID, s.Term, s.Vote, s.Lead, s.LeadTransferee, s.PendingConfIndex,
+		uint64(s.State), s.UncommittedSize, uint64(s.ElectionElapsed), uint64(s.HeartbeatElapsed),
+		s.Committed, s.Applying, s.Applied, s.ApplyingEntsSize, s.FirstIndex, s.LastIndex,
+		s.UnstableOffset, s.UnstableOffsetInProgress, s.ReadConfirmed)
+	b = verifB(b, s.IsLearner)
+	b = verifB(b, s.ApplyingEntsPaused)
+	b = verifB(b, s.UnstableSnapshotInProgress)
+	b = verifB(b, s.AutoLeave)
+	b = verifU(b, uint64(len(s.UnstableEntries)))
+	for _, e := range s.UnstableEntries {
+		b = verifPB(b, e)
+	}
+	if s.UnstableSnapshot != nil {
+		b = append(b, 1)
+		b = verifPB(b, s.UnstableSnapshot)
+	} else {
+		b = append(b, 0)
+	}
+	b = verifIDs(b, s.Voters[0])
+	b = verifIDs(b, s.Voters[1])
+	b = verifIDs(b, s.Learners)
+	b = verifIDs(b, s.LearnersNext)
+	b = verifU(b, uint64(len(s.Progress)))
+	for _, p := range s.Progress {
+		b = verifU(b, p.ID, p.Match, p.Next, p.SentCommit, p.PendingSnapshot, uint64(p.State))
+		b = verifB(b, p.RecentActive)
+		b = verifB(b, p.MsgAppFlowPaused)
+		b = verifB(b, p.IsLearner)
+		b = verifU(b, uint64(len(p.Inflights)))
+		for _, in := range p.Inflights {
+			b = verifU(b, in.Index, in.Bytes)
+		}
+	}
+	b = verifIDs(b, s.VotesFor)
+	b = verifIDs(b, s.VotesAgainst)
+	b = verifU(b, uint64(len(s.ReadAcks)))
+	for _, a := range s.ReadAcks {
+		b = verifU(b, a[0], a[1])
+	}
+	b = verifU(b, uint64(len(s.ReadUnconfirmed)))
+	for _, rq := range s.ReadUnconfirmed {
+		b = verifU(b, rq.Index, rq.From, uint64(len(rq.Ctx)))
+		b = append(b, rq.Ctx...)
+	}
+	b = verifMsgs(b, s.PendingReadIndex)
+	b = verifMsgs(b, s.Msgs)
+	b = verifMsgs(b, s.MsgsAfterAppend)
+	b = verifMsgs(b, s.StepsOnAdvance)
+	b = verifU(b, uint64(len(s.ReadStates)))
+	for _, rs := range s.ReadStates {
+		b = verifU(b, rs.Index, uint64(len(rs.RequestCtx)))
+		b = append(b, rs.RequestCtx...)
+	}
+	b = verifU(b, s.PrevHardSt.GetTerm(), s.PrevHardSt.GetVote(), s.PrevHardSt.GetCommit(),
+		s.PrevSoftSt.Lead, uint64(s.PrevSoftSt.RaftState))
+	return b
+}
+
+// VerifSetRandomizedElectionTimeout pins the randomized election timeout (the
+// library's only source of randomness) so that the harness owns it.
+func (rn *RawNode) VerifSetRandomizedElectionTimeout(t int) {
+	rn.raft.randomizedElectionTimeout = t
+}
+
+// VerifDump returns the storage contents: hard state, snapshot and the entry
+// slice including the dummy entry at position 0. The result aliases the
+// storage's memory and must not be modified.
+func (ms *MemoryStorage) VerifDump() (*pb.HardState, *pb.Snapshot, []*pb.Entry) {
+	ms.Lock()
+	defer ms.Unlock()
+	return ms.hardState, ms.snapshot, ms.ents
+}
+
+// VerifFingerprint appends a canonical encoding of the storage contents to b.
+func (ms *MemoryStorage) VerifFingerprint(b []byte) []byte {
+	hs, snap, ents := ms.VerifDump()
+	b = verifU(b, hs.GetTerm(), hs.GetVote(), hs.GetCommit())
+	if snap != nil {
+		b = verifPB(b, snap)
+	} else {
+		b = append(b, 0, 0, 0, 0)
+	}
+	b = verifU(b, uint64(len(ents)))
+	for _, e := range ents {
+		b = verifPB(b, e)
+	}
+	return b
+}
